@@ -255,12 +255,9 @@ class Pol:
                     atoms |= at
             return [(0 if name in ("log", "solve", "power") else 1, frozenset(f"{name}({x})" for x in atoms) or frozenset())] if atoms else [(1, frozenset())]
         # repository callee or unknown library call: opaque, unknown sign
-        atoms = frozenset()
-        for a in args + [k.value for k in e.keywords]:
-            for s, at in T(a, stmt, scope, seen):
-                atoms |= at
+        # the result is a fresh atom (its own polarity is +); what is inside is not visible to sign rules
         self.unknown.append(src(e.func))
-        return [(0, frozenset({f"call:{src(e.func)}"}) | atoms)]
+        return [(1, frozenset({f"call:{src(e.func)}"}))]
 
     def _is_module(self, node):
         d = self.P.dotted(node, self.f)
